@@ -488,6 +488,9 @@ func enterBlock(pf *pathFacts, pred, blk *ssa.BasicBlock) *pathFacts {
 			if !ok {
 				continue
 			}
+			if _, assumed := assumedBools[v]; assumed || assumedNonNil[v] {
+				continue // an assumption of the query (ReachAssuming*), about this very computation
+			}
 			if _, has := cur().bools[v]; has {
 				delete(get().bools, v)
 			}
